@@ -189,3 +189,41 @@ Theorem C04_c_wps_kernel_as_written :
       ((s + cw_shift l1 l2 window (Z.of_nat i - 1))%Z = 0%Z -> (Z.of_nat i <= cw_ri2 l1 l2 window)%Z) ->
       aget wps' (Z.of_nat i * W + s) = mget (wps_matrix usq s1 s2) i (Z.to_nat (s + cw_shift l1 l2 window (Z.of_nat i - 1))).
 Proof. intros window p m mld psi Hw usq s1 s2 d Hd1 Hd2 H1 H2 Hp1 Hp2. exact (c_wps_kernel_stores_spec_matrix window p m mld psi Hw s1 s2 d Hd1 Hd2 H1 H2 Hp1 Hp2). Qed.
+
+(* ... and RUN FOR ITS VALUE (return_dtw = true; the -1 marks not requested), with the end-of-series scans calling the
+   regenerated dtw_wps_shift: the value returned is the DTW value of the specification (the optimum over all
+   admissible warping paths, C01) - what C02_c_dtw_distance_ndim_as_written shows the distance-only kernel returns
+   under its square root - whether it is read at the corner or found by the two downward scans with their `break`;
+   with keep_int_repr = false the value and every positive cell are replaced by their square roots (sq_repr). *)
+From DV Require Import CWpsValue.
+
+Theorem C04_c_wps_kernel_returns_the_dtw_value :
+  forall (window p m mld : Z) (psi : (nat * nat) * (nat * nat)), (0 <= window)%Z ->
+  let usq := c_to_u (cs_of window p m mld psi SqEuclid) in
+  forall (s1 s2 : list point) (d : nat),
+  (forall q, In q s1 -> List.length q = d) -> (forall q, In q s2 -> List.length q = d) ->
+  (1 <= List.length s1)%nat -> (1 <= List.length s2)%nat ->
+  (psi_1b usq <= List.length s1)%nat -> (psi_2b usq <= List.length s2)%nat ->
+  forall ce ced1 ced2 (wps0 : list cost) (keep : bool) idist,
+  let l1 := Z.of_nat (List.length s1) in let l2 := Z.of_nat (List.length s2) in
+  let W := cw_width l1 l2 window in
+  Z.of_nat (List.length wps0) = ((l1 + 1) * W)%Z -> (idist =? 1)%Z = false ->
+  exists wps',
+    c_dtw_warping_paths_ndim ce (cw_shift l1 l2 window) ced1 ced2 wps0 (List.concat s1) l1 (List.concat s2) l2 true keep false (Z.of_nat d)
+      ((l1 + 1) * W)%Z (c_parts_ldiff l1 l2) (c_parts_ldiffr l1 l2 (c_parts_ldiff l1 l2))
+      (c_parts_ldiffc l1 l2 (c_parts_ldiff l1 l2)) (c_parts_window l1 l2 window) W ((l1 + 1) * W)%Z
+      (c_parts_ri1 l1 (c_parts_overlap_left l1 (c_parts_ldiffr l1 l2 (c_parts_ldiff l1 l2)) (c_parts_window l1 l2 window))
+                      (c_parts_overlap_right l1 (c_parts_ldiffr l1 l2 (c_parts_ldiff l1 l2)) (c_parts_window l1 l2 window)))
+      (c_parts_ri2 l1 (c_parts_overlap_left l1 (c_parts_ldiffr l1 l2 (c_parts_ldiff l1 l2)) (c_parts_window l1 l2 window)))
+      (c_parts_ri3 l1 (c_parts_overlap_left l1 (c_parts_ldiffr l1 l2 (c_parts_ldiff l1 l2)) (c_parts_window l1 l2 window))
+                      (c_parts_overlap_right l1 (c_parts_ldiffr l1 l2 (c_parts_ldiff l1 l2)) (c_parts_window l1 l2 window)))
+      (adj_max_step usq) Inf (Fin (adj_penalty usq)) idist false (Z.of_nat (psi_1b usq)) (Z.of_nat (psi_1e usq))
+      (Z.of_nat (psi_2b usq)) (Z.of_nat (psi_2e usq)) false
+    = (CLang.RPlain (sq_repr keep (dtw_value usq s1 s2)), wps', true) /\
+    Z.of_nat (List.length wps') = ((l1 + 1) * W)%Z /\
+    forall (i : nat) (s : Z), (Z.of_nat i <= l1)%Z -> (0 <= s < W)%Z ->
+      (s + cw_shift l1 l2 window (Z.of_nat i - 1) <= l2)%Z ->
+      ((s + cw_shift l1 l2 window (Z.of_nat i - 1))%Z = 0%Z -> (Z.of_nat i <= cw_ri2 l1 l2 window)%Z) ->
+      aget wps' (Z.of_nat i * W + s)
+      = sq_repr keep (mget (wps_matrix usq s1 s2) i (Z.to_nat (s + cw_shift l1 l2 window (Z.of_nat i - 1)))).
+Proof. intros window p m mld psi Hw usq s1 s2 d Hd1 Hd2 H1 H2 Hp1 Hp2. exact (c_wps_kernel_returns_the_dtw_value window p m mld psi Hw s1 s2 d Hd1 Hd2 H1 H2 Hp1 Hp2). Qed.
